@@ -6,6 +6,7 @@ import (
 	"fmt"
 	"io"
 	"os"
+	"sync"
 	"time"
 )
 
@@ -67,6 +68,17 @@ type MemFile struct {
 	// and answers every read and Stat a second time: any difference between the
 	// in-memory model of a file and os.File is a harness defect (mirrorDivergence).
 	Mirror *os.File
+	// Mu, when set, serialises all calls (real-parallel engine: gkvlite requires a
+	// concurrency-safe StoreFile there).
+	Mu *sync.Mutex
+}
+
+func (m *MemFile) lock() func() {
+	if m.Mu == nil {
+		return func() {}
+	}
+	m.Mu.Lock()
+	return m.Mu.Unlock
 }
 
 // mirrorDivergence is the panic value raised when MemFile and os.File disagree.
@@ -130,6 +142,7 @@ func (m *MemFile) done() {
 }
 
 func (m *MemFile) ReadAt(p []byte, off int64) (int, error) {
+	defer m.lock()()
 	_, fail := m.tick(IORead, off, len(p), nil)
 	defer m.done()
 	if fail {
@@ -176,6 +189,7 @@ func (m *MemFile) writeRaw(p []byte, off int64) {
 }
 
 func (m *MemFile) WriteAt(p []byte, off int64) (int, error) {
+	defer m.lock()()
 	_, fail := m.tick(IOWrite, off, len(p), p)
 	defer m.done()
 	if off < 0 {
@@ -215,6 +229,7 @@ func (m *MemFile) WriteAt(p []byte, off int64) (int, error) {
 }
 
 func (m *MemFile) Stat() (os.FileInfo, error) {
+	defer m.lock()()
 	_, fail := m.tick(IOStat, 0, 0, nil)
 	defer m.done()
 	if fail {
@@ -238,6 +253,7 @@ func (m *MemFile) mirrorWrite(p []byte, off int64) {
 }
 
 func (m *MemFile) Truncate(sz int64) error {
+	defer m.lock()()
 	_, fail := m.tick(IOTrunc, sz, 0, nil)
 	defer m.done()
 	if fail {
@@ -261,6 +277,7 @@ func (m *MemFile) Truncate(sz int64) error {
 
 // Image returns a copy of the current bytes.
 func (m *MemFile) Image() []byte {
+	defer m.lock()()
 	return append([]byte(nil), m.B...)
 }
 
